@@ -26,10 +26,14 @@ RULE = (
 ADV_IDENT = ["a", "ab", "a_b", "aa", "a1", "abc", "b", "ba", "b_a", "a_"]
 ADV_ANY = ["a", "ab", "a_b", "aa", "a+b", "a(b", "b$", "b", "ba", "a1"]
 ADV_SCAN = ["py", "pya", "a", "apy", "a_py", "p", "pyc", "__init__x", "_", "__"]
+# capitalised siblings (case-sensitive ordering), and components that are suffixes of their ancestors' names
+ADV_CASE = ["a", "B", "b", "Ab", "ab", "aB", "Z", "z_a", "_a", "A"]
 ABSTRACT = [f"c{i}" for i in range(10)]
 
 
 def renamings(rng, pool):
+    if isinstance(pool, tuple):        # several adversarial pools: one is drawn per case
+        pool = rng.choice(pool)
     adv = pool[:]
     rng.shuffle(adv)
     r1 = {c: f"n{i}q" for i, c in enumerate(ABSTRACT)}
@@ -210,7 +214,7 @@ def judge_scans(ctx, stream, n):
             tree[p] = "".join(f"import {rng.choice(mods)}\n" for _ in range(rng.randint(0, 2))) + rng.choice(["", "import c9.c8\n", "import c0x\n"])
         mp = rng.choice(dirs)
         # second pool: components that look like file suffixes / contain the root's name / are prefixes of "__init__"
-        r1, r2 = renamings(rng, ADV_IDENT if rng.random() < 0.5 else ADV_SCAN)
+        r1, r2 = renamings(rng, (ADV_IDENT, ADV_SCAN, ADV_CASE))
         o1, o2 = _scan((tree, mp, r1)), _scan((tree, mp, r2))
         stream.evaluations += 1
         if has_prefix_clash([ren(sc.module_of(p), r2) for p in tree]):
@@ -231,7 +235,7 @@ def run(ctx: Ctx):
     s = Stream(ctx, "(a) rules under two renamings")
     cases = random_cases(ctx.rng("rules"), ctx.size(6000, 120000), comps=ABSTRACT, strict=False, max_nodes=12, max_imports=10)
     cases += random_cases(ctx.rng("rules-strict"), ctx.size(3000, 60000), comps=ABSTRACT, strict=True, max_nodes=12, max_imports=10)
-    judge_rules(ctx, s, cases, ADV_ANY)
+    judge_rules(ctx, s, cases, (ADV_ANY, ADV_ANY, ADV_CASE))
     s.finish()
     s = Stream(ctx, "(b) layer rules under two renamings")
     rng = ctx.rng("layers")
@@ -243,7 +247,7 @@ def run(ctx: Ctx):
         c = c05.make_case(rng, nodes, gen.random_imports(rng, nodes, 10), force_kinds=["N"] * 4)
         if c:
             lcases.append(c)
-    judge_layers(ctx, s, lcases, ADV_ANY)
+    judge_layers(ctx, s, lcases, (ADV_ANY, ADV_ANY, ADV_CASE))
     s.finish()
     s = Stream(ctx, "(c) plot labels under two renamings")
     rng = ctx.rng("labels")
@@ -252,7 +256,7 @@ def run(ctx: Ctx):
         nodes = gen.random_tree(rng, max_nodes=10, comps=ABSTRACT)
         mods = rng.sample(nodes, rng.randint(1, min(3, len(nodes))))
         lab.append((nodes, [(m, f"@{j}@") for j, m in enumerate(mods)]))
-    judge_labels(ctx, s, lab, ADV_ANY)
+    judge_labels(ctx, s, lab, (ADV_ANY, ADV_ANY, ADV_CASE))
     s.finish()
     s = Stream(ctx, "(d) scans with module_path below root under two renamings")
     judge_scans(ctx, s, ctx.size(150, 3000))
